@@ -26,6 +26,25 @@ FAMILY = [
      ["Q1", "S", "Q0", "N1", "N0P"], [["Q1", "Q0"], ["N1", "N0P"]]),
     (({"F": "[S]", "I": "[W]", "G": "[Q]", "O": "[Q]"}, "O[q] = I[q + s] * F[s] * G[q]"),
      ["Q: [uniform_shape(6)]", "W: [follow(Q)]"], ["Q1", "S", "Q0"], [["Q1", "Q0"]]),
+    # index math on a rank split by occupancy only; looping over the accessed tensor's own rank
+    (({"F": "[S]", "I": "[W]", "O": "[Q]"}, "O[q] = I[q + s] * F[s]"),
+     ["Q: [uniform_occupancy(I.10)]", "W: [follow(Q)]"], ["Q1", "W0", "Q0"], [["Q1", "Q0"], ["Q1", "W0"]]),
+    (({"F": "[S]", "I": "[W]", "O": "[Q]"}, "O[q] = I[q + s] * F[s]"),
+     ["Q: [uniform_occupancy(I.10)]", "W: [follow(Q)]"], ["Q1", "Q0", "S"], [["Q1", "Q0"]]),
+    (({"F": "[S]", "I": "[W]", "O": "[Q]"}, "O[q] = I[q + s] * F[s]"),
+     ["Q: [uniform_shape(6)]", "W: [follow(Q)]"], ["Q1", "W0", "Q0"], [["Q1", "Q0"], ["Q1", "W0"]]),
+    # three ranks flattened, the flattened rank split again, operands holding one, two or all of them
+    (({"A": "[K, M, J]", "B": "[K, N]", "D": "[K, J]", "Z": "[M, N]"}, "Z[m, n] = A[k, m, j] * B[k, n] * D[k, j]"),
+     ["(K, M, J): [flatten()]", "KMJ: [uniform_occupancy(A.16)]"], ["KMJ1", "N", "KMJ0"], [["KMJ1", "KMJ0"]]),
+    (({"A": "[K, M, J]", "B": "[K, N]", "D": "[K, J]", "Z": "[M, N]"}, "Z[m, n] = A[k, m, j] * B[k, n] * D[k, j]"),
+     ["(K, M, J): [flatten()]"], ["KMJ", "N"], []),
+    # an output whose flattened ranks are not contiguous / not in flattening order in its declaration
+    (({"A": "[M, N, O]", "Z": "[M, O, N]"}, "Z[m, o, n] = A[m, n, o]"),
+     ["(M, N, O): [flatten()]", "MNO: [uniform_occupancy(A.4)]"], ["MNO1", "MNO0"], [["MNO1", "MNO0"]]),
+    (({"A": "[M, N, O]", "Z": "[N, M, O]"}, "Z[n, m, o] = A[m, n, o]"),
+     ["(M, N, O): [flatten()]"], ["MNO"], []),
+    (({"A": "[M, N, O, P]", "Z": "[P, M, O, N]"}, "Z[p, m, o, n] = A[m, n, o, p]"),
+     ["(M, N, O): [flatten()]", "MNO: [uniform_occupancy(A.4)]"], ["P", "MNO1", "MNO0"], [["MNO1", "MNO0"]]),
     (({"A": "[I, J, K]", "B": "[J]", "Z": "[I]"}, "Z[i] = A[i, j, k] * B[j]"),
      ["(I, J): [flatten()]", "K: [uniform_occupancy(A.2)]"], ["IJ", "K1", "K0"], [["K1", "K0"]]),
 ]
